@@ -124,6 +124,7 @@ def install_entropy(reg):
 def key_valid(cid):
     """object invariant of a key handed out by construct / generate / import (C05)"""
     v = ['self._d is not None or self._point is not None',
+         'self._point is not None ==> valid(self._point)',       # (valid() does not descend into a union-typed field by itself)
          '(self._d is not None and self._point is not None) ==> self._point._point._raw_pointer.%s == %s' % (gfield(cid), mul_G(cid, 'self._d._value'))]
     if cid <= 5:
         v += ['self._seed is None', 'self._d is not None ==> (1 <= self._d._value and self._d._value < %d)' % SK.CURVE_ORDER[cid]]
@@ -285,8 +286,77 @@ def registry(cid, tier='thorough'):
     reg.add(Contract(K + 'generate', params={'kwargs': '|'.join(gshapes)}, result=OKEY, raises=graises, ensures=gens,
                      requires=['rnd_cursor() == 0'], modifies=['kwargs'], inline=[KEY + '.pointQ', KEY + '.d', KEY + '.seed', KEY + '.has_private']))
     add_decoders(reg, cid)
-    add_sec1(reg, cid, nm)
+    add_sec1(reg, cid, nm if tier == 'thorough' else nm[:1])
+    add_exports(reg, cid, tier)
     return finish(reg)
+
+
+def add_exports(reg, cid, tier='thorough'):
+    """raw public encodings: SEC 1 2.3.3 (NIST), RFC 8032 5.1.2 / 5.2.2 (EdDSA), RFC 7748 5 (XDH); and the round trips
+    import(export(key)) has the same public point (C08), as lemmas over these contracts and the decoders' contracts"""
+    from .dh import install_integer_to_bytes
+    install_integer_to_bytes(reg)
+    n = SK.curve_bytes(cid)
+    Q = Q_expr(cid, 'self')
+    inl = [KEY + '.pointQ', KEY + '.d', KEY + '.seed', KEY + '.has_private']
+    X, Y = 'spec.ecgroup.px(old(%s))' % Q, 'spec.ecgroup.py(old(%s))' % Q
+    steps = tier == 'thorough' or cid == 3       # slice-level stepping stones + round trip: every NIST curve in thorough, P-256 in quick
+    if cid <= 5:
+        ens = {'uncompressed': 'not compress ==> result == bytes([4]) + i2osp(%s, %d) + i2osp(%s, %d)' % (X, n, Y, n),
+               'compressed': 'compress ==> result == bytes([2 + %s %% 2]) + i2osp(%s, %d)' % (Y, X, n)}
+        if steps:
+            # the same statement slice by slice (what a decoder reads): stepping stones for the round-trip lemma
+            ens.update({'u_len': 'not compress ==> len(result) == %d' % (1 + 2 * n), 'u_tag': 'not compress ==> nth(result, 0) == 4',
+                        'u_x': 'not compress ==> result[1:%d] == i2osp(%s, %d)' % (n + 1, X, n),
+                        'u_y': 'not compress ==> result[%d:] == i2osp(%s, %d)' % (n + 1, Y, n)})
+        reg.add(Contract(KEY + '._export_SEC1', params={'compress': 'bool'}, raises={}, result='bytes', ensures=ens,
+                         modifies=['self._point'], inline=inl))
+    else:
+        reg.add(Contract(KEY + '._export_SEC1', params={'compress': 'bool'}, raises={'ValueError': ('iff', 'not spec.keys.is_weierstrass(%d)' % cid)},
+                         modifies=['self._point'], inline=inl))
+    if cid == 6:
+        # RFC 8032 5.1.2: 'copy the least significant bit of the x-coordinate to the most significant bit of the final octet' (which is 0: y < p)
+        enc = 'spec.keys.setbyte(i2le(%s, 32), 31, ((%s %% 2) * 128) | nth(i2le(%s, 32), 31))' % (Y, X, Y)
+        reg.add(Contract(KEY + '._export_eddsa_public', params={}, raises={}, result='bytes', ensures={'rfc8032_5_1_2': 'result == %s' % enc},
+                         modifies=['self._point'], inline=inl, bv_width=16))        # ((x & 1) << 7) | result[31]: both operands < 2^16 (side obligation)
+    elif cid == 7:
+        enc = 'spec.keys.setbyte(i2le(%s, 57), 56, (%s %% 2) * 128)' % (Y, X)
+        reg.add(Contract(KEY + '._export_eddsa_public', params={}, raises={}, result='bytes', ensures={'rfc8032_5_2_2': 'result == %s' % enc},
+                         modifies=['self._point'], inline=inl))
+    elif cid <= 5:
+        # (on a Montgomery key this private helper fails with AttributeError -- EccXPoint has no xy --; export_key never calls it there)
+        reg.add(Contract(KEY + '._export_eddsa_public', params={}, raises={'ValueError': ('iff', 'not spec.keys.is_edwards(%d)' % cid)},
+                         modifies=['self._point'], inline=inl))
+    if cid in (8, 9):
+        reg.add(Contract(KEY + '._export_montgomery_public', params={}, requires=['%s != -1' % Q], raises={}, result='bytes',
+                         ensures={'rfc7748_5': 'result == i2le(old(%s), %d)' % (Q, n), 'len': 'len(result) == %d' % n,
+                                  # stepping stone for the round trip: the last octet is the most significant one
+                                  'msb_octet': 'nth(result, %d) == old(%s) // pow2(%d)' % (n - 1, Q, 8 * (n - 1))},
+                         modifies=['self._point'], inline=inl))
+    else:
+        reg.add(Contract(KEY + '._export_montgomery_public', params={}, raises={'ValueError': ('iff', 'not spec.keys.is_montgomery(%d)' % cid)},
+                         modifies=['self._point'], inline=inl))
+    # round trip, uncompressed SEC1: the re-imported key is public and denotes the same point
+    if cid <= 5:
+        Hh = 'spec.keys_harness.'
+        Qk = Q_expr(cid, 'key')
+        reg.add(Contract(Hh + 'sec1_roundtrip', params={'key': OKEY, 'name': "enum(%s)" % ','.join(repr(a) for a in EC.NAMES[cid][:2])},
+                         raises={}, result=OKEY,
+                         ensures={'same_point': 'result._point._point._raw_pointer.g_pt == old(%s)' % Qk, 'public': 'result._d is None'},
+                         modifies=['key._point'], inline=inl))
+
+
+    if cid in (8, 9):
+        Hh = 'spec.keys_harness.'
+        Qk = Q_expr(cid, 'key')
+        reg.add(Contract(Hh + ('x25519_roundtrip' if cid == 8 else 'x448_roundtrip'), params={'key': OKEY},
+                         # a key whose public point is not cached yet denotes d*G, which the decoder validates like any other point
+                         requires=['%s != -1 and not spec.keys.low_order_u(%d, %s)' % (Qk, cid, Qk)], raises={}, result=OKEY,
+                         ensures={'same_point': 'result._point._point._raw_pointer.g_u == old(%s)' % Qk, 'public': 'result._d is None'},
+                         modifies=['key._point'], inline=inl))
+
+
+EXPORTS = ['_export_SEC1', '_export_eddsa_public', '_export_montgomery_public']
 
 
 def add_sec1(reg, cid, nm):
@@ -295,9 +365,15 @@ def add_sec1(reg, cid, nm):
     n = SK.curve_bytes(cid)
     p_ = SK.CURVE_P[cid]
     oid = SK.CURVE_OID[cid]
-    shapes = {'ec_point': 'bytes', 'curve_oid': 'const:%r|none|str' % oid, 'curve_name': 'const:%r|none|str' % nm[0]}
+    shapes = {'ec_point': 'bytes', 'curve_oid': 'const:%r|none|str' % oid, 'curve_name': '|'.join('const:%r' % a for a in nm) + '|none|str'}
+    # (nm = the first name of the family in the quick tier, all of them in thorough)
     either = '(curve_oid is None) != (curve_name is None)'       # docstring: 'Either curve_id or curve_name must be specified'
-    known = '(curve_oid == %r or (curve_oid is None and curve_name == %r))' % (oid, nm[0])
+    # this registry's curve, or no supported curve at all (an OID / name of ANOTHER family belongs to that family's registry)
+    fam = EC.NAMES[cid]
+    other_names = tuple(a for a in EC.ALL_NAMES if a not in fam)
+    other_oids = tuple(SK.CURVE_OID[c] for c in EC.ALL_CIDS if c != cid)
+    either = either + ' and curve_name not in %r and curve_oid not in %r' % (other_names, other_oids)
+    known = '(curve_oid == %r or (curve_oid is None and curve_name in %r))' % (oid, fam)
     inl = [KEY + '.pointQ', KEY + '.d', KEY + '.seed', KEY + '.has_private']
     if cid > 5:
         reg.add(Contract(K + '_import_public_der', params=shapes, requires=[either], raises={'ValueError': ('iff', 'True or len(ec_point) >= 0')},
@@ -314,7 +390,7 @@ def add_sec1(reg, cid, nm):
     bad_u = 'conj(%s == 4, disj(len(ec_point) != %d, not spec.ecgroup.valid(%d, spec.ecgroup.pt(%s, %s))))' % (t, 1 + 2 * n, cid, x_u, y_u)
     bad_c = ('conj(disj(%s == 2, %s == 3), disj(len(ec_point) != %d, not spec.keys.is_square_mod(%s, %d), not spec.ecgroup.valid(%d, spec.ecgroup.pt(%s, %s))))'
              % (t, t, 1 + n, rhs, p_, cid, x_c, y_c))
-    unknown = '((curve_oid is not None and curve_oid != %r) or (curve_oid is None and curve_name != %r))' % (oid, nm[0])
+    unknown = '(not %s)' % known
     G = 'result._point._point._raw_pointer.g_pt'
     reg.add(Contract(K + '_import_public_der', params=shapes, result=OKEY, requires=[either],
                      raises={'IndexError': ('iff', '%s and len(ec_point) == 0' % known),
@@ -455,6 +531,14 @@ def units(prop, tier):
     out = []
     if prop == 'C08':
         for cid in EC.ALL_CIDS:
+            out.append(pyvc_unit(prop, 'key.ecc.export.%s' % EC.LABEL[cid], lambda cid=cid: registry(cid, tier),
+                                 [KEY + '.' + f for f in EXPORTS if not (cid in (8, 9) and f == '_export_eddsa_public')]))
+            if cid <= 5:
+                out.append(pyvc_unit(prop, 'key.ecc.roundtrip.sec1.%s' % EC.LABEL[cid], lambda cid=cid: registry(cid, tier),
+                                     ['spec.keys_harness.sec1_roundtrip'], tiers=('quick', 'thorough') if cid == 3 else ('thorough',)))
+            if cid in (8, 9):
+                out.append(pyvc_unit(prop, 'key.ecc.roundtrip.raw.%s' % EC.LABEL[cid], lambda cid=cid: registry(cid, tier),
+                                     ['spec.keys_harness.' + ('x25519_roundtrip' if cid == 8 else 'x448_roundtrip')]))
             out.append(pyvc_unit(prop, 'key.ecc.eq.%s' % EC.LABEL[cid], lambda cid=cid: registry(cid, tier),
                                  [KEY + '.has_private', KEY + '.pointQ', KEY + '.__eq__']))
     if prop == 'C05':
